@@ -27,6 +27,52 @@ fn main() {
     }
     install_panic_hook();
     let t0 = Instant::now();
+    if cmd == "featref" {
+        // vcheck featref <seed> <cases>: the C17 KAT digests computed by the reference model
+        use sha2::{Digest, Sha256};
+        let seed: u64 = args[2].parse().expect("seed");
+        let cases: u32 = args[3].parse().expect("cases");
+        let h = |tag: &str, set: u32, i: u32, j: u32| -> [u8; 32] {
+            let mut s = Sha256::new();
+            s.update(tag.as_bytes());
+            s.update(seed.to_le_bytes());
+            s.update(set.to_le_bytes());
+            s.update(i.to_le_bytes());
+            s.update(j.to_le_bytes());
+            s.finalize().into()
+        };
+        for p in refmodel::ALL {
+            let mut d = Sha256::new();
+            for i in 0..cases {
+                let xi = h("xi", p.id, i, 0);
+                let mfull = h("m", p.id, i, 0);
+                let m = &mfull[..(i as usize * 7) % 33];
+                let cfull = h("c", p.id, i, 0);
+                let ctx = &cfull[..(i as usize) % 3];
+                let (pk, sk) = refmodel::keygen_internal(&p, &xi);
+                d.update(&pk);
+                d.update(&sk);
+                for j in 0..4u32 {
+                    let mode = refmodel::MODES[j as usize];
+                    let rnd = h("rnd", p.id, i, j);
+                    let (sig, _) = refmodel::sign(&p, &sk, m, ctx, mode, &rnd, 100_000).expect("reference sign");
+                    d.update(&sig);
+                    let v1 = refmodel::verify(&p, &pk, m, &sig, ctx, mode).accepted();
+                    let mut bad = sig.clone();
+                    let pos = ((i + j) as usize * 131) % bad.len();
+                    bad[pos] ^= 1;
+                    let v2 = refmodel::verify(&p, &pk, m, &bad, ctx, mode).accepted();
+                    let mut m2 = m.to_vec();
+                    m2.push(0);
+                    let v3 = refmodel::verify(&p, &pk, &m2, &sig, ctx, mode).accepted();
+                    d.update([u8::from(v1), u8::from(v2), u8::from(v3)]);
+                }
+            }
+            let out: [u8; 32] = d.finalize().into();
+            println!("set={} digest={}", p.id, hex::encode(out));
+        }
+        return;
+    }
     if cmd == "aligned" {
         // vcheck aligned <set> <rho-hex> <row> <k>: run the aligned-residue construction, print JSON
         let p = refmodel::params(args[2].parse().expect("set"));
